@@ -444,6 +444,8 @@ class FuncVerifier(object):
             return st.alloc(av)
         if t == 'none':
             return None
+        if t == 'slice':             # a slice object lo:hi with integer bounds (no step)
+            return Tag('slice', fresh(name + '.start', I), fresh(name + '.stop', I))
         if isinstance(t, dict) and 'seq' in t:      # a list of objects of unknown length: {'seq': {'cls': .., 'fields': {f: 'int' | 'int1'}}}
             et = t['seq']
             ln = fresh(name + '_len', I)
@@ -1582,6 +1584,17 @@ class FuncVerifier(object):
             return self.row_gather(self.deref(v, st), self.row_mask_subscript(sl, st), st, n)
         if isinstance(v, (Ref, View)) and isinstance(sl, ast.Tuple) and any(isinstance(e, ast.Slice) for e in sl.elts):
             return self.read_region(self.deref(v, st), sl, st, n)
+        if isinstance(v, (Ref, View)) and isinstance(sl, ast.Name) and isinstance(st.env.get(sl.id), Ref) \
+                and isinstance(st.heap.get(st.env[sl.id].loc), AV) and st.heap[st.env[sl.id].loc].elem == 'int' and st.heap[st.env[sl.id].loc].ndim == 1:
+            # a[idx] with idx a 1-D integer array: a fresh array whose entry k is a[idx[k]] (indices within 0 .. len-1: obligation)
+            av, ix = self.deref(v, st), st.heap[st.env[sl.id].loc]
+            k_ = fresh('k', I)
+            inr = z3.And(0 <= k_, k_ < ix.shape[0])
+            self.oblige(st, self.site(n, 'bounds'), z3.ForAll([k_], z3.Implies(inr, z3.And(0 <= z3.Select(ix.term, k_), z3.Select(ix.term, k_) < av.shape[0])),
+                                                              patterns=[z3.Select(ix.term, k_)]), n)
+            res = fresh('take', av.term.sort())
+            st.pc.append(z3.ForAll([k_], z3.Implies(inr, z3.Select(res, k_) == z3.Select(av.term, z3.Select(ix.term, k_))), patterns=[z3.Select(res, k_)]))
+            return st.alloc(AV(res, (ix.shape[0],) + tuple(av.shape[1:]), av.elem))
         if isinstance(v, (Ref, View)):
             av = self.deref(v, st)
             idx = self.index_list(sl, st)
@@ -1927,6 +1940,10 @@ class FuncVerifier(object):
                         break
                 elif isinstance(ty, tuple) and ty and ty[0] == 'const':
                     if not (isinstance(a, PyConst) and a.value == ty[1]):
+                        ok = False
+                        break
+                elif ty == 'slice' or (isinstance(a, Tag) and a.kind == 'slice'):
+                    if not (ty == 'slice' and isinstance(a, Tag) and a.kind == 'slice'):
                         ok = False
                         break
                 elif isinstance(ty, str) and ty in TYPE_ARR:
